@@ -59,7 +59,8 @@ ObsHandles(e) == { e.live[i].h : i \in 1..Len(e.live) }
 \* "" or the first reason the live section contradicts state S2 / digests dig2
 CheckLive(e, S2, dig2) ==
   LET hs == (DOMAIN S2.hd) \ Hidden IN
-  IF ObsHandles(e) # hs THEN "live-set"
+  IF Has(e, "noobs") THEN ""           \* a quiet step: the harness did not look (the state is carried on by the specification)
+  ELSE IF ObsHandles(e) # hs THEN "live-set"
   ELSE IF \E h \in hs : ObsOf(e, h).x # dig2[h] THEN "immutable"
   ELSE IF \E h \in hs : ObsOf(e, h).t # S2.hd[h].trk THEN "tracked-flag"
   ELSE IF \E h \in hs : ObsOf(e, h).g # IsSome(S2.grad[S2.hd[h].n]) THEN "grad-presence"
